@@ -174,5 +174,5 @@ Definition trace_tgt_float (ft : nat) (T : @program float) (seed : Z) :=
   (map show_event (trace fin), pc fin, status_code (st fin)).
 
 From PV Require Import IC10.Monitor.
-Definition monitor_float (ft : nat) (T : @program float) (seed : Z) :=
-  monitor FloatAlg (pool_oracle seed default_pool) T ft.
+Definition monitor_float (ft : nat) (T : @program float) (entries : list nat) (seed : Z) :=
+  monitor FloatAlg entries (pool_oracle seed default_pool) T ft.
